@@ -193,6 +193,18 @@ def gen_sections(rng, n):
             entries.append([path, val])
         text = BASE + "[checksums]\n" + "".join("%s = %s\n" % (p, v) for p, v in entries) + "\n"
         cases.append({"text": text, "entries": entries})
+    # the early productmd formats (0.1 - 0.3, [product] instead of [release]) are not pre-productmd files: an absolute path is
+    # refused there like everywhere else, a relative one is taken as it is
+    for _ in range(max(10, n // 5)):
+        ver = rng.choice(["0.1", "0.2", "0.3"])
+        base = BASE.replace("[release]", "[product]").replace("version = 1.2", "version = " + ver).replace("type = productmd.treeinfo\n", "")
+        entries = []
+        for i, path in enumerate(rng.sample(["images/boot.iso", "x86_64/os/images/boot.iso", "/mnt/tree/os/images/boot.iso", "/abs/file",
+                                             "repodata/repomd.xml"], rng.randint(1, 3))):
+            L = rng.choice([32, 40, 64])
+            entries.append([path, rng.choice(["", "sha256:", "md5:"]) + rstr(rng, hexd, L, L)])
+        text = base + "[checksums]\n" + "".join("%s = %s\n" % (p, v) for p, v in entries) + "\n"
+        cases.append({"text": text, "entries": entries, "early": ver})
     # pre-productmd files (no [header]): relative keys are taken as they are, whatever directory names they contain
     for _ in range(max(10, n // 5)):
         entries = []
